@@ -11,299 +11,891 @@ import (
 func init() {
 	register(&propDef{
 		id: "C43", run: runC43, minOblig: 20,
-		explanation: "Decides state discipline and framing guards of the in-memory SSH agent: (locking) keyring.keys, locked and passphrase are accessed only with r.mu held; the *Locked helpers are called only with it held; (locked agent) every Agent method that reads or changes the key list does so only behind the 'locked == false' edge, List returns an empty list and the others errLocked; Lock refuses a second Lock; Unlock clears the lock only behind subtle.ConstantTimeCompare(given, stored passphrase) == 1; (expiry) List, SignWithFlags and Signers call expireKeysLocked before they read the key list, and expireKeysLocked removes exactly keys whose expiry is set and passed; (lifetime on every stored entry) in Add the lifetime test dominates every point where the new entry is stored into the key list (append AND in-place replacement) and on the 'LifetimeSecs > 0' edge the expiry is written before the entry is stored; unsupported constraints are refused before anything is stored; Add replaces an entry with equal public-key bytes instead of appending; (framing) ServeAgent rejects request length 0 and lengths above the maximum before allocating, so processRequest's data[0] has a byte to read, and refuses over-long replies (evaluated). NOT decided: equivalence with an abstract agent over histories; swap-delete order of Remove.",
+		explanation: "Decides state discipline and framing guards of the in-memory SSH agent, independently of how the code is factored (helpers of the package are expanded in place, gates are recognised through negation, &&/||, guard clauses, boolean helpers and 'err == nil' tests on checking helpers; values are identified by provenance, never by the names of locals): (locking) keyring.keys, locked and passphrase are accessed only with the keyring mutex held, in a helper: held at every one of its call sites; (locked agent) every Agent method that reads or changes the key list reaches the key list only behind 'locked == false'; while locked List returns an empty list and no error and the others a non-nil error (errLocked); Lock refuses a second Lock; Unlock clears the lock only behind subtle.ConstantTimeCompare(given, stored passphrase) == 1; (expiry) List, SignWithFlags and Signers run the expiry sweep (the function that removes keys behind a time comparison with their expiry) before they touch the key list, and the sweep removes a key only when its expiry is set and has passed; (scan) a loop that deletes slot i of the key list in place does not advance past the entry moved into slot i; (lifetime on every stored entry) in Add no store into the key list (append OR in-place replacement) is reached unless 'LifetimeSecs > 0' was refuted or the entry's expiry has been written; unsupported constraints (ConfirmBeforeUse, ConstraintExtensions) are refused before anything is stored; Add overwrites an existing entry exactly where its marshalled public key equals the new key's (a loop with an equality test on the same index, slices.IndexFunc with an equality predicate, or an index-returning helper) instead of appending; (framing) ServeAgent rejects request length 0 and lengths above the maximum before allocating, so processRequest's data[0] has a byte to read, and refuses over-long replies (evaluated). NOT decided: equivalence with an abstract agent over histories; which entry a swap-delete moves (order of the remaining keys).",
 		assumptions: []string{"time.Now monotonic behaviour", "subtle.ConstantTimeCompare contract"},
 	})
-	tech("C43", "lockset analysis (guarded-field table), must-cross CFG rules on the locked flag, dominance/ordering rules for expiry and lifetime, finite-domain evaluation of framing limits")
+	tech("C43", "lockset analysis (guarded-field table, lock inheritance into helpers), interprocedural must-cross rules on role-defined gates (locked flag, expiry, lifetime, constraints, public-key equality) with implication lifted through boolean/ error-returning helpers, provenance slices for index/element correspondence, finite-domain evaluation of framing limits")
 }
+
+const c43pk = "ssh/agent"
 
 func runC43(c *Ctx) {
 	sweepC43(c)
-	const pk = "ssh/agent"
-	fns := c.funcsOfPkg(pk)
-	exempt := map[string]string{
-		"(*keyring).removeLocked":     "caller holds r.mu (checked at call sites)",
-		"(*keyring).expireKeysLocked": "caller holds r.mu (checked at call sites)",
+	fns := c.funcsOfPkg(c43pk)
+	c43Locking(c, fns)
+	c43Locked(c)
+	sweeps := c43Expiry(c, fns)
+	c43ExpiryOrder(c, sweeps)
+	c43Scan(c, fns)
+	if f := c.fn(c43pk, "(*keyring).Add"); f != nil {
+		c43Lifetime(c, f)
+		c43AddReplace(c, f)
+		c43Constraints(c, f)
+	}
+	if f := c.fn(c43pk, "ServeAgent"); f != nil {
+		c43Framing(c, f)
+	}
+}
+
+// ---------------------------------------------------------------------------
+// locking
+
+// c43SyncClosures: closures that a standard-library search/sort routine calls
+// synchronously (the closure is created as the argument of a slices./sort.
+// call) while the keyring mutex is held; they run inside the critical section.
+func c43SyncClosures(fns []*ssa.Function) map[string]string {
+	out := map[string]string{}
+	for _, f := range fns {
+		if f.Parent() != nil {
+			continue
+		}
+		var li *lockInfo
+		allInstrs(f, func(in ssa.Instruction) {
+			call, ok := in.(*ssa.Call)
+			if !ok {
+				return
+			}
+			n := calleeName(&call.Call)
+			if !strings.HasPrefix(n, "slices.") && !strings.HasPrefix(n, "sort.") {
+				return
+			}
+			for _, a := range call.Call.Args {
+				mc, ok := a.(*ssa.MakeClosure)
+				if !ok {
+					continue
+				}
+				// the closure value has no other use than this call
+				if refs := mc.Referrers(); refs == nil || len(*refs) != 1 {
+					continue
+				}
+				if li == nil {
+					li = computeLocks(f)
+				}
+				if li.at(call).holds("", ".mu") {
+					out[fnName(mc.Fn.(*ssa.Function))] = "runs synchronously inside " + n + " called with the mutex held in " + fnName(f)
+				}
+			}
+		})
+	}
+	return out
+}
+
+func c43Locking(c *Ctx, fns []*ssa.Function) {
+	exempt := c43SyncClosures(fns)
+	// "...Locked" helpers by role: unexported keyring methods that work on the
+	// guarded state without ever touching the mutex themselves, and that are only
+	// ever called synchronously (never go'ed or deferred). Their accesses are
+	// covered by the obligation that the mutex is held at every call site.
+	var helpers []*ssa.Function
+	isHelper := map[*ssa.Function]bool{}
+	for _, f := range fns {
+		if f.Parent() != nil || f.Object() == nil || f.Object().Exported() || len(f.Params) == 0 || typeName(f.Params[0].Type()) != "keyring" {
+			continue
+		}
+		touches := false
+		for _, fld := range []string{"keys", "locked", "passphrase"} {
+			if len(fieldRefs(f, "keyring", fld)) > 0 {
+				touches = true
+			}
+		}
+		mutex := false
+		allInstrs(f, func(in ssa.Instruction) {
+			if cc := callCommon(in); cc != nil && strings.HasPrefix(calleeName(cc), "(*sync.") {
+				mutex = true
+			}
+		})
+		cs := c.callersOf(f)
+		plain := len(cs) > 0
+		for _, ci := range cs {
+			if _, isCall := ci.(*ssa.Call); !isCall {
+				plain = false
+			}
+		}
+		if touches && !mutex && plain {
+			helpers = append(helpers, f)
+			isHelper[f] = true
+			exempt[fnName(f)] = "works on the state for its callers; the mutex is held at every call site (checked there)"
+		}
 	}
 	for _, fld := range []string{"keys", "locked", "passphrase"} {
 		n := c.checkGuarded("C43.lock", fns, guardSpec{"keyring", fld, ".mu", false}, exempt)
 		c.check(n > 0, "C43.lock", "keyring."+fld, nil, fmt.Sprintf("%d accessing functions", n), "no access found")
 	}
-	for _, f := range fns {
-		for _, ci := range callsNamed(f, "(*ssh/agent.keyring).removeLocked", "(*ssh/agent.keyring).expireKeysLocked") {
-			nm := fnName(f)
-			if exempt[nm] != "" {
-				c.ok("C43.lock", short(calleeName(ci.Common()))+" from "+nm, ci, "called from another *Locked helper")
+	for _, f := range helpers {
+		for _, ci := range c.callersOf(f) {
+			caller := ci.Parent()
+			what := strings.TrimPrefix(fnName(f), "(*keyring).") + " from " + fnName(caller)
+			if isHelper[caller] {
+				c.ok("C43.lock", what, ci, "called from another helper that runs with the mutex held")
 				continue
 			}
-			li := computeLocks(f)
-			c.check(li.at(ci).holds("", ".mu"), "C43.lock", short(calleeName(ci.Common()))+" from "+nm, ci, "r.mu held at the call", "a *Locked helper is called without r.mu")
-		}
-	}
-	// ---- locked agent
-	for _, m := range []string{"RemoveAll", "Remove", "List", "Add", "SignWithFlags", "Signers"} {
-		f := c.fn(pk, "(*keyring)."+m)
-		if f == nil {
-			continue
-		}
-		var unlockedEdges []edge
-		for _, v := range loadsOfField(f, "keyring", "locked") {
-			_, no := boolEdges(v, true)
-			unlockedEdges = append(unlockedEdges, no...)
-		}
-		var targets []ssa.Instruction
-		targets = append(targets, fieldRefs(f, "keyring", "keys")...)
-		for _, ci := range callsNamed(f, "(*ssh/agent.keyring).removeLocked", "(*ssh/agent.keyring).expireKeysLocked") {
-			targets = append(targets, ci)
-		}
-		c.mustCross("C43.locked", "(*keyring)."+m, f, targets, unlockedEdges, "locked == false")
-		// on the locked edge: List -> (nil, nil); others errLocked
-		e := newEnv()
-		e.bindField(f, "keyring", "locked", 1)
-		e.solve(f)
-		ok := true
-		for _, r := range returnsOf(f) {
-			if !e.reach[r.Block()] {
-				continue
-			}
-			ev := retVal(r, len(r.Results)-1)
-			if m == "List" {
-				if !isNilConst(ev) || !isNilConst(retVal(r, 0)) {
-					ok = false
-				}
-			} else if accessPath(ev) != "errLocked" {
-				ok = false
-			}
-		}
-		want := "errLocked"
-		if m == "List" {
-			want = "an empty list and no error"
-		}
-		c.check(ok, "C43.locked", "(*keyring)."+m+" result when locked", f, "returns "+want, "a locked agent does not answer "+m+" with "+want)
-	}
-	if f := c.fn(pk, "(*keyring).Lock"); f != nil {
-		sts := storesTo(f, "keyring", "locked")
-		var pass []edge
-		for _, v := range loadsOfField(f, "keyring", "locked") {
-			_, no := boolEdges(v, true)
-			pass = append(pass, no...)
-		}
-		c.mustCross("C43.locked", "(*keyring).Lock", f, instrsOf(sts), pass, "not already locked")
-	}
-	if f := c.fn(pk, "(*keyring).Unlock"); f != nil {
-		var clr []ssa.Instruction
-		for _, st := range storesTo(f, "keyring", "locked") {
-			if b, ok := constBool(st.Val); ok && !b {
-				clr = append(clr, st)
-			}
-		}
-		ctc := callsNamed(f, "crypto/subtle.ConstantTimeCompare")
-		c.mustCross("C43.unlock", "(*keyring).Unlock", f, clr, callSuccess(ctc, 0, isOne), "ConstantTimeCompare(passphrase, stored) == 1")
-		okArgs := len(ctc) == 1
-		if okArgs {
-			a := ctc[0].Common().Args
-			isStored := func(v ssa.Value) bool { _, fld, _, ok := fieldOf(v); return ok && fld == "passphrase" }
-			okArgs = (a[0] == ssa.Value(f.Params[1]) && isStored(a[1])) || (a[1] == ssa.Value(f.Params[1]) && isStored(a[0]))
-		}
-		c.check(okArgs, "C43.unlock", "(*keyring).Unlock comparison", f, "compares the given passphrase with the stored one", "Unlock does not compare the given passphrase with the one stored by Lock")
-	}
-	// ---- expiry
-	for _, m := range []string{"List", "SignWithFlags", "Signers"} {
-		f := c.fn(pk, "(*keyring)."+m)
-		if f == nil {
-			continue
-		}
-		ex := callsNamed(f, "(*ssh/agent.keyring).expireKeysLocked")
-		ok := len(ex) == 1
-		if ok {
-			for _, r := range fieldRefs(f, "keyring", "keys") {
-				if !precedes(ex[0], r) {
-					ok = false
+			held := computeLocks(caller).at(ci).holds("", ".mu")
+			if !held {
+				if up, ok := c.entryLocks(caller, 0); ok && up.holds("", ".mu") {
+					held = true
 				}
 			}
+			c.check(held, "C43.lock", what, ci, "the keyring mutex is held at the call", "a helper that works on the guarded keyring state is called without the keyring mutex")
 		}
-		c.check(ok, "C43.expiry", "(*keyring)."+m, f, "expired keys are dropped before the key list is read", "the key list is read without first removing expired keys")
-	}
-	if f := c.fn(pk, "(*keyring).expireKeysLocked"); f != nil {
-		rm := callsNamed(f, "(*ssh/agent.keyring).removeLocked")
-		var notNil, after []edge
-		allInstrs(f, func(in ssa.Instruction) {
-			if u, ok := in.(*ssa.UnOp); ok && u.Op == token.MUL {
-				if _, fld, _, okf := fieldOf(u); okf && fld == "expire" {
-					_, no := edgesWhere(u, isNil)
-					notNil = append(notNil, no...)
-				}
-			}
-			if fv, ok := in.(*ssa.Field); ok {
-				if _, fld, _, okf := fieldOf(fv); okf && fld == "expire" {
-					_, no := edgesWhere(fv, isNil)
-					notNil = append(notNil, no...)
-				}
-			}
-		})
-		after = callSuccess(callsNamed(f, "(time.Time).After"), 0, isTrue)
-		c.mustCross("C43.expiry", "expireKeysLocked expiry set", f, callInstrs(rm), notNil, "expire != nil")
-		c.mustCross("C43.expiry", "expireKeysLocked expiry passed", f, callInstrs(rm), after, "time.Now().After(*expire)")
-	}
-	// ---- Add
-	if f := c.fn(pk, "(*keyring).Add"); f != nil {
-		// the new entry: local privKey alloc; publish points: loads of the whole struct
-		var entry *ssa.Alloc
-		allInstrs(f, func(in ssa.Instruction) {
-			if al, ok := in.(*ssa.Alloc); ok && typeName(al.Type()) == "privKey" && !al.Heap {
-				if entry == nil {
-					entry = al
-				}
-			}
-			if al, ok := in.(*ssa.Alloc); ok && typeName(al.Type()) == "privKey" {
-				// prefer the alloc that has a store to .expire
-				for _, r := range *al.Referrers() {
-					if fa, isFA := r.(*ssa.FieldAddr); isFA {
-						if _, fld, _, okf := fieldOf(fa); okf && fld == "expire" {
-							entry = al
-						}
-					}
-				}
-			}
-		})
-		var lt *ssa.BinOp
-		allInstrs(f, func(in ssa.Instruction) {
-			if bo, ok := in.(*ssa.BinOp); ok {
-				if _, fld, _, okf := fieldOf(bo.X); okf && fld == "LifetimeSecs" {
-					lt = bo
-				}
-			}
-		})
-		if entry == nil || lt == nil {
-			c.fail("C43.lifetime", "(*keyring).Add", f, "new entry or lifetime test not found")
-		} else {
-			var publish []ssa.Instruction
-			var expStore *ssa.Store
-			for _, r := range *entry.Referrers() {
-				switch x := r.(type) {
-				case *ssa.UnOp:
-					publish = append(publish, x)
-				case *ssa.FieldAddr:
-					if _, fld, _, okf := fieldOf(x); okf && fld == "expire" {
-						for _, rr := range *x.Referrers() {
-							if st, isS := rr.(*ssa.Store); isS {
-								expStore = st
-							}
-						}
-					}
-				}
-			}
-			ok := expStore != nil && len(publish) >= 2
-			detail := fmt.Sprintf("expiry store=%v, %d places store the entry into the key list (want >= 2: replace and append)", expStore != nil, len(publish))
-			if ok {
-				pos := edgesImplying(lt.X, []int64{0, 1, 5}, func(d int64) bool { return d > 0 })
-				for _, p := range publish {
-					if !lt.Block().Dominates(p.Block()) {
-						ok = false
-						detail = "the entry can be stored before its lifetime constraint is evaluated (the replacement path drops the expiry)"
-					}
-				}
-				// on the >0 edge the expiry store precedes every publish
-				var starts []*ssa.BasicBlock
-				for _, e := range pos {
-					starts = append(starts, e.to())
-				}
-				r := reachAvoiding(starts, nil, map[*ssa.BasicBlock]bool{expStore.Block(): true})
-				for _, p := range publish {
-					if r[p.Block()] {
-						ok = false
-						detail = "with LifetimeSecs > 0 the entry can be stored without its expiry"
-					}
-				}
-				if len(pos) == 0 {
-					ok = false
-					detail = "no LifetimeSecs > 0 branch"
-				}
-			}
-			c.check(ok, "C43.lifetime", "(*keyring).Add", expStore, "the lifetime constraint is applied to the entry before it is stored, on the replace and the append path", detail)
-			// replacement on equal key bytes
-			eq := callsNamed(f, "bytes.Equal")
-			okRep := len(eq) == 1
-			if okRep {
-				yes := callSuccess(eq, 0, isTrue)
-				okRep = false
-				for _, e := range yes {
-					for _, in := range e.to().Instrs {
-						if st, isS := in.(*ssa.Store); isS {
-							if ia, isIA := st.Addr.(*ssa.IndexAddr); isIA && isField(ia.X, "keyring", "keys") {
-								okRep = true
-							}
-						}
-					}
-				}
-			}
-			c.check(okRep, "C43.add-replace", "(*keyring).Add", f, "an entry with equal public key bytes is replaced in place", "Add does not replace an existing entry with the same public key")
-		}
-		// unsupported constraints refused before storing
-		var refuse []edge
-		for _, v := range loadsOfPathSuffix(f, "ConfirmBeforeUse") {
-			_, no := boolEdges(v, true)
-			refuse = append(refuse, no...)
-		}
-		var st []ssa.Instruction
-		for _, s := range storesTo(f, "keyring", "keys") {
-			st = append(st, s)
-		}
-		c.mustCross("C43.constraints", "(*keyring).Add ConfirmBeforeUse", f, st, refuse, "ConfirmBeforeUse == false")
-	}
-	// ---- framing
-	if f := c.fn(pk, "ServeAgent"); f != nil {
-		maxB, _ := pkgConstInt(c, pk, "maxAgentResponseBytes")
-		var lv ssa.Value
-		for _, ci := range calls(f, func(n string) bool { return strings.HasSuffix(n, ").Uint32") }) {
-			lv = callValue(ci)
-		}
-		var mk *ssa.MakeSlice
-		allInstrs(f, func(in ssa.Instruction) {
-			if m, ok := in.(*ssa.MakeSlice); ok && m.Len == lv || (ok && stripConv(m.Len) == lv) {
-				mk = m
-			}
-		})
-		bad := ""
-		if lv == nil || mk == nil || maxB == 0 {
-			bad = "length decode / request allocation / limit not found"
-		} else {
-			for _, n := range []int64{0, 1, 2, maxB - 1, maxB, maxB + 1, 1<<32 - 1} {
-				e := newEnv()
-				e.bind(lv, n)
-				cut := e.cuts(f)
-				got := reachAfter(lv.(ssa.Instruction), cut)[mk.Block()] || lv.(ssa.Instruction).Block() == mk.Block()
-				if got != (n >= 1 && n <= maxB) {
-					bad = fmt.Sprintf("request length %d: buffer allocated=%v (limit %d)", n, got, maxB)
-				}
-			}
-		}
-		c.check(bad == "", "C43.framing", "ServeAgent request length", f, fmt.Sprintf("requests of length 0 or above %d are refused before allocation", maxB), bad)
-		// reply bound
-		var wr []ssa.Instruction
-		for _, ci := range calls(f, nameIs("invoke:(io.Writer).Write")) {
-			wr = append(wr, ci)
-		}
-		var pr ssa.Value
-		for _, ci := range callsNamed(f, "(*ssh/agent.server).processRequestBytes") {
-			pr = callValue(ci)
-		}
-		okR := pr != nil && len(wr) >= 2
-		if okR {
-			for _, n := range []int64{1, maxB, maxB + 1} {
-				e := newEnv()
-				e.bindLen(f, pr, n)
-				cut := e.cuts(f)
-				got := reachAfter(pr.(ssa.Instruction), cut)[wr[0].Block()]
-				if got != (n <= maxB) {
-					okR = false
-				}
-			}
-		}
-		c.check(okR, "C43.framing", "ServeAgent reply length", f, "over-long replies are not written", "replies above the size limit are written")
 	}
 }
 
+// ---------------------------------------------------------------------------
+// locked agent
+
+func c43UnlockedFact(c *Ctx) *c43Fact {
+	return c.c43NewFact("locked == false", func(v ssa.Value) (bool, bool) {
+		if c43FieldLoad(v, "keyring", "locked") {
+			return false, true
+		}
+		return false, false
+	})
+}
+
+// c43LockedClass classifies what a value is on the paths a locked agent takes:
+// "nil", "err" (certainly non-nil error) or "?".
+func c43LockedClass(v ssa.Value, rets map[*ssa.Function][]*ssa.Return, blocks map[*ssa.BasicBlock]bool, d int) string {
+	if v == nil || d > 6 {
+		return "?"
+	}
+	if isNilConst(v) {
+		return "nil"
+	}
+	if c43NonNilErr(v) {
+		return "err"
+	}
+	join := func(cur, next string) string {
+		if cur == "" || cur == next {
+			return next
+		}
+		return "?"
+	}
+	switch x := v.(type) {
+	case *ssa.Phi:
+		cls := ""
+		for i, e := range x.Edges {
+			if i < len(x.Block().Preds) && !blocks[x.Block().Preds[i]] {
+				continue
+			}
+			cls = join(cls, c43LockedClass(e, rets, blocks, d+1))
+		}
+		if cls != "" {
+			return cls
+		}
+	case *ssa.Call, *ssa.Extract:
+		_, h, idx := c43LocalCallee(v)
+		if h == nil {
+			return "?"
+		}
+		cls := ""
+		for _, r := range rets[h] {
+			if idx >= len(r.Results) {
+				return "?"
+			}
+			cls = join(cls, c43LockedClass(retVal(r, idx), rets, blocks, d+1))
+		}
+		if cls != "" {
+			return cls
+		}
+	}
+	return "?"
+}
+
+func c43Locked(c *Ctx) {
+	unlocked := c43UnlockedFact(c)
+	for _, m := range []string{"RemoveAll", "Remove", "List", "Add", "SignWithFlags", "Signers"} {
+		f := c.fn(c43pk, "(*keyring)."+m)
+		if f == nil {
+			continue
+		}
+		cut := unlocked.cutFor(f)
+		nTargets := 0
+		deepInstrs(f, func(in ssa.Instruction) {
+			if c43KeysRef(in) {
+				nTargets++
+			}
+		})
+		var hit ssa.Instruction
+		rets := map[*ssa.Function][]*ssa.Return{}
+		blocks := map[*ssa.BasicBlock]bool{}
+		c43Walk(f, cut, func(in ssa.Instruction) c43Act {
+			blocks[in.Block()] = true
+			if c43KeysRef(in) && hit == nil {
+				hit = in
+			}
+			if r, ok := in.(*ssa.Return); ok {
+				rets[in.Parent()] = append(rets[in.Parent()], r)
+			}
+			return c43Go
+		})
+		cn := "(*keyring)." + m
+		switch {
+		case len(cut) == 0:
+			c.fail("C43.locked", cn, f, "gate not found: locked == false (no branch on the locked flag exists in "+fnName(f)+" or its helpers)")
+		case nTargets == 0:
+			c.fail("C43.locked", cn, f, "no access to the key list found (rule anchor lost)")
+		case hit != nil:
+			c.fail("C43.locked", cn, hit, "the key list is reachable without passing locked == false")
+		default:
+			c.ok("C43.locked", cn, f, fmt.Sprintf("every path to the %d key-list accesses (helpers expanded in place) passes locked == false (%d pass edge(s))", nTargets, len(cut)))
+		}
+		// what a locked agent answers: List -> (nil, nil); others a non-nil error
+		ok := len(rets[f]) > 0
+		for _, r := range rets[f] {
+			last := c43LockedClass(retVal(r, len(r.Results)-1), rets, blocks, 0)
+			if m == "List" {
+				if last != "nil" || c43LockedClass(retVal(r, 0), rets, blocks, 0) != "nil" {
+					ok = false
+				}
+			} else if last != "err" {
+				ok = false
+			}
+		}
+		want := "an error (errLocked)"
+		if m == "List" {
+			want = "an empty list and no error"
+		}
+		c.check(ok, "C43.locked", cn+" result when locked", f, "returns "+want, "a locked agent does not answer "+m+" with "+want)
+	}
+	if f := c.fn(c43pk, "(*keyring).Lock"); f != nil {
+		var sts []ssa.Instruction
+		deepInstrs(f, func(in ssa.Instruction) {
+			if st, ok := in.(*ssa.Store); ok && c43IsFieldRef(st.Addr, "keyring", "locked") {
+				sts = append(sts, st)
+			}
+		})
+		c43MustCross(c, "C43.locked", "(*keyring).Lock", f, sts, unlocked, "not already locked")
+	}
+	if f := c.fn(c43pk, "(*keyring).Unlock"); f != nil {
+		var clr []ssa.Instruction
+		deepInstrs(f, func(in ssa.Instruction) {
+			if st, ok := in.(*ssa.Store); ok && c43IsFieldRef(st.Addr, "keyring", "locked") {
+				if b, isB := constBool(st.Val); isB && !b {
+					clr = append(clr, st)
+				}
+			}
+		})
+		// the comparison of the GIVEN passphrase (parameter 1) with the STORED one
+		nCmp := 0
+		match := c.c43NewFact("ConstantTimeCompare(passphrase, stored) == 1", func(v ssa.Value) (bool, bool) {
+			x, y, pol, ok := c43EqTest(v)
+			if !ok {
+				return false, false
+			}
+			bo, isBo := v.(*ssa.BinOp)
+			if !isBo {
+				return false, false
+			}
+			isCTC := false
+			for _, op := range []ssa.Value{bo.X, bo.Y} {
+				if cc, isCall := op.(*ssa.Call); isCall && calleeName(&cc.Call) == "crypto/subtle.ConstantTimeCompare" {
+					isCTC = true
+				}
+			}
+			if !isCTC {
+				return false, false
+			}
+			given := func(s map[ssa.Value]bool) bool { return s[f.Params[1]] }
+			stored := func(s map[ssa.Value]bool) bool {
+				return c43SliceHas(s, func(w ssa.Value) bool { return c43IsFieldRef(w, "keyring", "passphrase") })
+			}
+			sx, sy := c.c43Slice(x), c.c43Slice(y)
+			if given(sx) && stored(sy) || given(sy) && stored(sx) {
+				nCmp++
+				return pol, true
+			}
+			return false, false
+		})
+		c43MustCross(c, "C43.unlock", "(*keyring).Unlock", f, clr, match, "ConstantTimeCompare(passphrase, stored) == 1")
+		c.check(nCmp > 0, "C43.unlock", "(*keyring).Unlock comparison", f, "compares the given passphrase with the stored one", "Unlock does not compare the given passphrase with the one stored by Lock")
+	}
+}
+
+// c43MustCross: every path from fn's entry (helpers expanded in place) to a
+// target passes an edge on which fact holds.
+func c43MustCross(c *Ctx, rule, construct string, fn *ssa.Function, targets []ssa.Instruction, fact *c43Fact, what string) bool {
+	cut := fact.cutFor(fn)
+	if len(cut) == 0 {
+		c.fail(rule, construct, fn, "gate not found: "+what+" (no branch on it exists in "+fnName(fn)+" or its helpers)")
+		return false
+	}
+	if len(targets) == 0 {
+		c.fail(rule, construct, fn, "no target instruction found for "+what+" (rule anchor lost)")
+		return false
+	}
+	tset := map[ssa.Instruction]bool{}
+	for _, t := range targets {
+		tset[t] = true
+	}
+	var hit ssa.Instruction
+	c43Walk(fn, cut, func(in ssa.Instruction) c43Act {
+		if tset[in] && hit == nil {
+			hit = in
+		}
+		return c43Go
+	})
+	if hit != nil {
+		c.fail(rule, construct, hit, "reachable without passing "+what)
+		return false
+	}
+	c.ok(rule, construct, targets[0], fmt.Sprintf("every path to the %d target(s) passes %s (%d pass edge(s), helpers expanded in place)", len(targets), what, len(cut)))
+	return true
+}
+
+// ---------------------------------------------------------------------------
+// expiry
+
+func c43HasExpire(s map[ssa.Value]bool) bool {
+	return c43SliceHas(s, func(w ssa.Value) bool { return c43IsFieldRef(w, "privKey", "expire") })
+}
+
+// c43ExpiredAtom: v says "the key's expiry lies in the past".
+func c43ExpiredAtom(c *Ctx, v ssa.Value) (bool, bool) {
+	switch x := v.(type) {
+	case *ssa.Call:
+		if len(x.Call.Args) != 2 {
+			return false, false
+		}
+		a0, a1 := c.c43Slice(x.Call.Args[0]), c.c43Slice(x.Call.Args[1])
+		switch calleeName(&x.Call) {
+		case "(time.Time).After": // now.After(expire)
+			if c43HasExpire(a1) && !c43HasExpire(a0) {
+				return true, true
+			}
+		case "(time.Time).Before": // expire.Before(now)
+			if c43HasExpire(a0) && !c43HasExpire(a1) {
+				return true, true
+			}
+		}
+	case *ssa.BinOp:
+		// time.Since(expire) > 0, time.Until(expire) < 0, now.Compare(expire) > 0
+		sign := func(w ssa.Value) int {
+			cc, ok := w.(*ssa.Call)
+			if !ok {
+				return 0
+			}
+			switch calleeName(&cc.Call) {
+			case "time.Since":
+				if c43HasExpire(c.c43Slice(cc.Call.Args[0])) {
+					return 1
+				}
+			case "time.Until":
+				if c43HasExpire(c.c43Slice(cc.Call.Args[0])) {
+					return -1
+				}
+			case "(time.Time).Compare":
+				a0, a1 := c.c43Slice(cc.Call.Args[0]), c.c43Slice(cc.Call.Args[1])
+				if c43HasExpire(a1) && !c43HasExpire(a0) {
+					return 1
+				}
+				if c43HasExpire(a0) && !c43HasExpire(a1) {
+					return -1
+				}
+			}
+			return 0
+		}
+		for _, s := range []int{1, -1} {
+			s := int64(s)
+			pol, ok := c43CmpAtom(v, func(w ssa.Value) bool { return int64(sign(w)) == s }, []int64{-5, -1, 0, 1, 5}, func(d int64) bool { return d*s > 0 })
+			if ok {
+				return pol, true
+			}
+		}
+	}
+	return false, false
+}
+
+func c43ExpireSetAtom(v ssa.Value) (bool, bool) {
+	bo, ok := v.(*ssa.BinOp)
+	if !ok || bo.Op != token.EQL && bo.Op != token.NEQ {
+		return false, false
+	}
+	other := bo.X
+	if isNilConst(bo.X) {
+		other = bo.Y
+	} else if !isNilConst(bo.Y) {
+		return false, false
+	}
+	if c43FieldLoad(other, "privKey", "expire") {
+		return bo.Op == token.NEQ, true
+	}
+	return false, false
+}
+
+// c43Expiry finds the expiry sweep by role — the innermost function that both
+// compares a key's expiry with the clock and (itself or through helpers)
+// removes entries from the key list — and checks that it removes only behind
+// "expiry set" and "expiry passed".
+func c43Expiry(c *Ctx, fns []*ssa.Function) []*ssa.Function {
+	has := func(f *ssa.Function, pred func(in ssa.Instruction) bool) bool {
+		found := false
+		deepInstrs(f, func(in ssa.Instruction) {
+			if !found && pred(in) {
+				found = true
+			}
+		})
+		return found
+	}
+	// any comparison of a key's expiry with a time (whatever its direction: a
+	// wrong direction must fail the gate rule below, not hide the sweep)
+	isCmp := func(in ssa.Instruction) bool {
+		call, ok := in.(*ssa.Call)
+		if !ok {
+			return false
+		}
+		switch calleeName(&call.Call) {
+		case "(time.Time).After", "(time.Time).Before", "(time.Time).Compare", "time.Since", "time.Until", "(time.Time).Sub":
+			for _, a := range call.Call.Args {
+				if c43HasExpire(c.c43Slice(a)) {
+					return true
+				}
+			}
+		}
+		return false
+	}
+	both := map[*ssa.Function]bool{}
+	for _, f := range fns {
+		if f.Parent() == nil && has(f, isCmp) && has(f, c43Shrinks) {
+			both[f] = true
+		}
+	}
+	var sweeps []*ssa.Function
+	for _, f := range fns {
+		if !both[f] {
+			continue
+		}
+		inner := false
+		for _, g := range deepFuncs(f)[1:] {
+			if both[g] {
+				inner = true
+			}
+		}
+		if !inner {
+			sweeps = append(sweeps, f)
+		}
+	}
+	if len(sweeps) == 0 {
+		c.fail("C43.expiry", "expiry sweep", nil, "no function of ssh/agent removes keys from the key list behind a comparison of their expiry with the clock: expired keys are never dropped")
+		return nil
+	}
+	set := c.c43NewFact("expire != nil", c43ExpireSetAtom)
+	passed := c.c43NewFact("time.Now().After(*expire)", func(v ssa.Value) (bool, bool) { return c43ExpiredAtom(c, v) })
+	for _, f := range sweeps {
+		var rm []ssa.Instruction
+		deepInstrs(f, func(in ssa.Instruction) {
+			if isSt, _ := c.c43KeysStore(in); isSt {
+				rm = append(rm, in)
+			}
+		})
+		nm := strings.TrimPrefix(fnName(f), "(*keyring).")
+		c43MustCross(c, "C43.expiry", nm+" expiry set", f, rm, set, "expire != nil")
+		c43MustCross(c, "C43.expiry", nm+" expiry passed", f, rm, passed, "time.Now().After(*expire)")
+	}
+	return sweeps
+}
+
+func c43ExpiryOrder(c *Ctx, sweeps []*ssa.Function) {
+	isSweep := map[*ssa.Function]bool{}
+	for _, s := range sweeps {
+		isSweep[s] = true
+	}
+	for _, m := range []string{"List", "SignWithFlags", "Signers"} {
+		f := c.fn(c43pk, "(*keyring)."+m)
+		if f == nil {
+			continue
+		}
+		if len(sweeps) == 0 {
+			c.fail("C43.expiry", "(*keyring)."+m, f, "the key list is read without first removing expired keys (no expiry sweep exists)")
+			continue
+		}
+		var hit ssa.Instruction
+		swept := 0
+		c43Walk(f, nil, func(in ssa.Instruction) c43Act {
+			if call, ok := in.(*ssa.Call); ok && isSweep[call.Call.StaticCallee()] {
+				swept++
+				return c43Stop // from here on expired keys are gone
+			}
+			if c43KeysRef(in) && hit == nil {
+				hit = in
+			}
+			return c43Go
+		})
+		c.check(hit == nil && swept > 0, "C43.expiry", "(*keyring)."+m, f, "expired keys are dropped before the key list is read", "the key list is read without first removing expired keys")
+	}
+}
+
+// c43Scan: a loop that deletes slot i of the key list in place (the list
+// shrinks inside the loop) must look at slot i again, because another entry
+// has been moved into it: on the way from the deletion back to the loop head
+// the index does not grow.
+func c43Scan(c *Ctx, fns []*ssa.Function) {
+	loops := 0
+	for _, f := range fns {
+		var shr []ssa.Instruction
+		allInstrs(f, func(in ssa.Instruction) {
+			if c43Shrinks(in) {
+				shr = append(shr, in)
+			}
+		})
+		if len(shr) == 0 {
+			continue
+		}
+		// loop indices: phis used to index the key list
+		var idx []*ssa.Phi
+		isIdx := map[*ssa.Phi]bool{}
+		allInstrs(f, func(in ssa.Instruction) {
+			if ia, ok := in.(*ssa.IndexAddr); ok && c.c43IsKeys(ia.X, nil) {
+				if ph, isPhi := ia.Index.(*ssa.Phi); isPhi && !isIdx[ph] {
+					isIdx[ph] = true
+					idx = append(idx, ph)
+				}
+			}
+		})
+		for _, s := range shr {
+			if c43LibraryDelete(s) {
+				loops++
+				c.ok("C43.scan", fnName(f)+" deletion", s, "slices.DeleteFunc examines every entry itself")
+				continue
+			}
+			for _, ph := range idx {
+				head := ph.Block()
+				// blocks reachable from the deletion without going through the loop head
+				from := reachAvoiding([]*ssa.BasicBlock{s.Block()}, nil, map[*ssa.BasicBlock]bool{head: true})
+				from[s.Block()] = true
+				inLoop := false
+				bad := false
+				for k, p := range head.Preds {
+					if !from[p] || k >= len(ph.Edges) {
+						continue
+					}
+					inLoop = true
+					if c43Grows(ph.Edges[k], ph, from, 0) {
+						bad = true
+					}
+				}
+				if !inLoop {
+					continue
+				}
+				loops++
+				c.check(!bad, "C43.scan", fnName(f)+" in-place deletion", s, "after deleting slot i the scan looks at slot i again", "after an in-place deletion at slot i the scan advances to i+1: the entry moved into slot i is never examined (a matching / expired key survives)")
+			}
+		}
+	}
+	c.check(loops > 0, "C43.scan", "in-place deletion loops", nil, fmt.Sprintf("%d deletion loop(s) over the key list", loops), "no loop that deletes entries of the key list was found (rule anchor lost)")
+}
+
+// c43Grows: v can be base + (a positive amount) on a path through blocks `from`.
+func c43Grows(v ssa.Value, base *ssa.Phi, from map[*ssa.BasicBlock]bool, d int) bool {
+	offs := map[int64]bool{}
+	var rec func(v ssa.Value, acc int64, d int)
+	rec = func(v ssa.Value, acc int64, d int) {
+		if d > 6 {
+			return
+		}
+		if v == ssa.Value(base) {
+			offs[acc] = true
+			return
+		}
+		switch x := v.(type) {
+		case *ssa.BinOp:
+			if k, ok := constInt(x.Y); ok && x.Op == token.ADD {
+				rec(x.X, acc+k, d+1)
+			} else if ok && x.Op == token.SUB {
+				rec(x.X, acc-k, d+1)
+			} else if k, ok := constInt(x.X); ok && x.Op == token.ADD {
+				rec(x.Y, acc+k, d+1)
+			}
+		case *ssa.Phi:
+			for i, e := range x.Edges {
+				if i < len(x.Block().Preds) && from[x.Block().Preds[i]] {
+					rec(e, acc, d+1)
+				}
+			}
+		}
+	}
+	rec(v, 0, d)
+	for o := range offs {
+		if o > 0 {
+			return true
+		}
+	}
+	return false
+}
+
+// ---------------------------------------------------------------------------
+// Add
+
+func c43Stores(c *Ctx, f *ssa.Function) (all, elem []ssa.Instruction) {
+	deepInstrs(f, func(in ssa.Instruction) {
+		if isSt, isElem := c.c43KeysStore(in); isSt {
+			all = append(all, in)
+			if isElem {
+				elem = append(elem, in)
+			}
+		}
+	})
+	return
+}
+
+// c43Lifetime: no store into the key list is reached unless LifetimeSecs > 0
+// has been refuted or the expiry of a privKey has been written.
+func c43Lifetime(c *Ctx, f *ssa.Function) {
+	isLT := func(w ssa.Value) bool { return c43FieldLoad(c.origin(stripConv(w)), "", "LifetimeSecs") }
+	noLife := c.c43NewFact("LifetimeSecs == 0", func(v ssa.Value) (bool, bool) {
+		return c43CmpAtom(v, isLT, []int64{0, 1, 5, 1 << 31}, func(d int64) bool { return d <= 0 })
+	})
+	isExpStore := func(in ssa.Instruction) bool {
+		st, ok := in.(*ssa.Store)
+		return ok && c43IsFieldRef(st.Addr, "privKey", "expire")
+	}
+	pubs, _ := c43Stores(c, f)
+	var expStore ssa.Instruction
+	deepInstrs(f, func(in ssa.Instruction) {
+		if isExpStore(in) && expStore == nil {
+			expStore = in
+		}
+	})
+	cut := noLife.cutFor(f)
+	var hit ssa.Instruction
+	hitElem := false
+	c43Walk(f, cut, func(in ssa.Instruction) c43Act {
+		if isExpStore(in) {
+			return c43Stop
+		}
+		if isSt, isElem := c.c43KeysStore(in); isSt && hit == nil {
+			hit, hitElem = in, isElem
+		}
+		return c43Go
+	})
+	ok := true
+	detail := ""
+	var at poser = f
+	switch {
+	case expStore == nil:
+		ok, detail = false, "no store of an expiry into a key entry found in Add or its helpers: the lifetime constraint is never applied"
+	case len(pubs) == 0:
+		ok, detail = false, "no store into the key list found (rule anchor lost)"
+	case hit != nil && hitElem:
+		ok, detail, at = false, "the entry can be stored before its lifetime constraint is evaluated (the replacement path drops the expiry)", hit
+	case hit != nil:
+		ok, detail, at = false, "with LifetimeSecs > 0 the entry can be appended to the key list without its expiry", hit
+	default:
+		at = expStore
+	}
+	c.check(ok, "C43.lifetime", "(*keyring).Add", at, fmt.Sprintf("the lifetime constraint is applied to the entry before any of the %d stores into the key list (replace and append paths)", len(pubs)), detail)
+}
+
+// c43Constraints: unsupported constraints are refused before anything is stored.
+func c43Constraints(c *Ctx, f *ssa.Function) {
+	pubs, _ := c43Stores(c, f)
+	noConfirm := c.c43NewFact("ConfirmBeforeUse == false", func(v ssa.Value) (bool, bool) {
+		if c43FieldLoad(c.origin(v), "", "ConfirmBeforeUse") {
+			return false, true
+		}
+		return false, false
+	})
+	c43MustCross(c, "C43.constraints", "(*keyring).Add ConfirmBeforeUse", f, pubs, noConfirm, "ConfirmBeforeUse == false")
+	isExtLen := func(w ssa.Value) bool {
+		call, ok := w.(*ssa.Call)
+		if !ok || calleeName(&call.Call) != "builtin:len" {
+			return false
+		}
+		return c43FieldLoad(c.origin(call.Call.Args[0]), "", "ConstraintExtensions")
+	}
+	noExt := c.c43NewFact("len(ConstraintExtensions) == 0", func(v ssa.Value) (bool, bool) {
+		return c43CmpAtom(v, isExtLen, []int64{0, 1, 2, 9}, func(d int64) bool { return d == 0 })
+	})
+	c43MustCross(c, "C43.constraints", "(*keyring).Add ConstraintExtensions", f, pubs, noExt, "len(ConstraintExtensions) == 0")
+}
+
+// c43rep decides "Add overwrites an entry exactly where the public keys are equal".
+type c43rep struct {
+	c    *Ctx
+	add  *ssa.Function
+	news map[ssa.Value]bool // helper parameters that carry (part of) the new key
+	keys map[ssa.Value]bool // helper parameters that carry the key list
+}
+
+func (r *c43rep) isNew(s map[ssa.Value]bool) bool {
+	if len(r.add.Params) > 1 && s[r.add.Params[1]] {
+		return true
+	}
+	return c43SliceHas(s, func(w ssa.Value) bool { return r.news[w] })
+}
+
+func c43Blob(s map[ssa.Value]bool) bool {
+	return c43SliceHas(s, func(w ssa.Value) bool { return c43MethodCall(w, "Marshal") })
+}
+
+// eqFact: "the stored key selected by isElem has the same marshalled public key
+// as the new key".
+func (r *c43rep) eqFact(isElem func(s map[ssa.Value]bool) bool) *c43Fact {
+	return r.c.c43NewFact("public keys equal", func(v ssa.Value) (bool, bool) {
+		x, y, pol, ok := c43EqTest(v)
+		if !ok {
+			return false, false
+		}
+		sx, sy := r.c.c43Slice(x), r.c.c43Slice(y)
+		if !c43Blob(sx) || !c43Blob(sy) {
+			return false, false
+		}
+		if isElem(sx) && r.isNew(sy) && !r.isNew(sx) || isElem(sy) && r.isNew(sx) && !r.isNew(sy) {
+			return pol, true
+		}
+		return false, false
+	})
+}
+
+func (r *c43rep) elemAt(i ssa.Value) func(s map[ssa.Value]bool) bool {
+	return func(s map[ssa.Value]bool) bool {
+		return c43SliceHas(s, func(w ssa.Value) bool {
+			ia, ok := w.(*ssa.IndexAddr)
+			return ok && ia.Index == i && r.c.c43IsKeys(ia.X, r.keys)
+		})
+	}
+}
+
+// bindArgs: entering helper h through call, note which parameters carry the new
+// key and which the key list.
+func (r *c43rep) bindArgs(call *ssa.Call, h *ssa.Function) {
+	for k, a := range call.Call.Args {
+		if k >= len(h.Params) {
+			break
+		}
+		if r.c.c43IsKeys(a, r.keys) {
+			r.keys[h.Params[k]] = true
+		} else if r.isNew(r.c.c43Slice(a)) {
+			r.news[h.Params[k]] = true
+		}
+	}
+}
+
+// eqPred: fnVal is a predicate on one stored key that is true only when its
+// public key equals the new key's.
+func (r *c43rep) eqPred(fnVal ssa.Value) bool {
+	var p *ssa.Function
+	switch x := fnVal.(type) {
+	case *ssa.MakeClosure:
+		p, _ = x.Fn.(*ssa.Function)
+	case *ssa.Function:
+		p = x
+	}
+	if p == nil || len(p.Params) != 1 || len(p.Blocks) == 0 {
+		return false
+	}
+	fact := r.eqFact(func(s map[ssa.Value]bool) bool { return s[p.Params[0]] })
+	rets := returnsOf(p)
+	for _, ret := range rets {
+		if len(ret.Results) != 1 {
+			return false
+		}
+		if fact.guarded(ret.Block()) || fact.implies(retVal(ret, 0), true, 0) {
+			continue
+		}
+		return false
+	}
+	return len(rets) > 0
+}
+
+// indexFact: the fact under which keys[i] has the new key's public key, as
+// gate for code that uses i. nil when i is not recognisably such an index.
+func (r *c43rep) indexFact(i ssa.Value, d int) *c43Fact {
+	if d > 3 {
+		return nil
+	}
+	nonNeg := func() *c43Fact {
+		return r.c.c43NewFact("index found", func(v ssa.Value) (bool, bool) {
+			return c43CmpAtom(v, func(w ssa.Value) bool { return w == i }, []int64{-1, 0, 1, 7}, func(d int64) bool { return d >= 0 })
+		})
+	}
+	if call, ok := i.(*ssa.Call); ok {
+		n := calleeName(&call.Call)
+		if n == "slices.IndexFunc" && len(call.Call.Args) == 2 {
+			if r.c.c43IsKeys(call.Call.Args[0], r.keys) && r.eqPred(call.Call.Args[1]) {
+				return nonNeg()
+			}
+			return nil
+		}
+		if _, h, _ := c43LocalCallee(call); h != nil {
+			r.bindArgs(call, h)
+			rets := returnsOf(h)
+			for _, ret := range rets {
+				if len(ret.Results) != 1 {
+					return nil
+				}
+				rv := retVal(ret, 0)
+				if k, isK := constInt(rv); isK && k < 0 {
+					continue
+				}
+				if _, isCall := rv.(*ssa.Call); isCall {
+					if r.indexFact(rv, d+1) != nil {
+						continue // "result >= 0 => equal" carries over
+					}
+					return nil
+				}
+				fact := r.eqFact(r.elemAt(rv))
+				if !fact.guarded(ret.Block()) {
+					return nil
+				}
+			}
+			if len(rets) > 0 {
+				return nonNeg()
+			}
+		}
+		return nil
+	}
+	return r.eqFact(r.elemAt(i))
+}
+
+func c43AddReplace(c *Ctx, f *ssa.Function) {
+	r := &c43rep{c: c, add: f, news: map[ssa.Value]bool{}, keys: map[ssa.Value]bool{}}
+	// helpers entered from Add: which of their parameters carry the new key / the list
+	for round := 0; round < 3; round++ {
+		deepInstrs(f, func(in ssa.Instruction) {
+			if call, ok := in.(*ssa.Call); ok {
+				if _, h, _ := c43LocalCallee(call); h != nil {
+					r.bindArgs(call, h)
+				}
+			}
+		})
+	}
+	// in-place replacements: stores of (a value built from) the new key into a slot of the key list
+	var reps []*ssa.Store
+	deepInstrs(f, func(in ssa.Instruction) {
+		st, ok := in.(*ssa.Store)
+		if !ok {
+			return
+		}
+		ia, ok := st.Addr.(*ssa.IndexAddr)
+		if ok && c.c43IsKeys(ia.X, r.keys) && r.isNew(c.c43Slice(st.Val)) {
+			reps = append(reps, st)
+		}
+	})
+	const bad = "Add does not replace an existing entry with the same public key"
+	if len(reps) == 0 {
+		c.fail("C43.add-replace", "(*keyring).Add", f, bad+" (the new entry is never stored into an existing slot of the key list)")
+		return
+	}
+	for _, st := range reps {
+		i := st.Addr.(*ssa.IndexAddr).Index
+		fact := r.indexFact(i, 0)
+		if fact == nil {
+			c.fail("C43.add-replace", "(*keyring).Add", st, bad+" (the slot that is overwritten is not chosen by comparing public keys)")
+			continue
+		}
+		cut := fact.cutFor(f)
+		reached := false
+		c43Walk(f, cut, func(in ssa.Instruction) c43Act {
+			if in == ssa.Instruction(st) {
+				reached = true
+			}
+			return c43Go
+		})
+		c.check(len(cut) > 0 && !reached, "C43.add-replace", "(*keyring).Add", st, "an entry is overwritten in place only where its marshalled public key equals the new key's", bad+" (a slot can be overwritten without its public key having compared equal to the new key's)")
+	}
+}
+
+// loadsOfPathSuffix: loads of a field named `field` (of any struct). Also used by c45.go.
 func loadsOfPathSuffix(f *ssa.Function, field string) []ssa.Value {
 	var out []ssa.Value
 	allInstrs(f, func(in ssa.Instruction) {
@@ -319,4 +911,142 @@ func loadsOfPathSuffix(f *ssa.Function, field string) []ssa.Value {
 		}
 	})
 	return out
+}
+
+// ---------------------------------------------------------------------------
+// framing
+
+func c43Framing(c *Ctx, root *ssa.Function) {
+	maxB, _ := pkgConstInt(c, c43pk, "maxAgentResponseBytes")
+	// the request buffer: a []byte allocated with a length that is not a
+	// constant — the decoded 32-bit length field (possibly converted)
+	type alloc struct {
+		mk *ssa.MakeSlice
+		lv ssa.Value
+	}
+	var allocs []alloc
+	deepInstrs(root, func(in ssa.Instruction) {
+		m, ok := in.(*ssa.MakeSlice)
+		if !ok {
+			return
+		}
+		if _, isC := constInt(m.Len); isC {
+			return
+		}
+		lv := stripConv(m.Len)
+		if _, isIn := lv.(ssa.Instruction); isIn && typeName(lv.Type()) == "uint32" {
+			allocs = append(allocs, alloc{m, lv})
+		}
+	})
+	bad := ""
+	if len(allocs) == 0 || maxB == 0 {
+		bad = "length decode / request allocation / limit not found"
+	}
+	for _, a := range allocs {
+		g := a.mk.Parent()
+		for _, n := range []int64{0, 1, 2, maxB - 1, maxB, maxB + 1, 1<<32 - 1} {
+			e := newEnv()
+			e.bind(a.lv, n)
+			cut := e.cuts(g)
+			got := reachAfter(a.lv.(ssa.Instruction), cut)[a.mk.Block()] || a.lv.(ssa.Instruction).Block() == a.mk.Block()
+			if got != (n >= 1 && n <= maxB) {
+				bad = fmt.Sprintf("request length %d: buffer allocated=%v (limit %d)", n, got, maxB)
+			}
+		}
+	}
+	c.check(bad == "", "C43.framing", "ServeAgent request length", root, fmt.Sprintf("requests of length 0 or above %d are refused before allocation", maxB), bad)
+	// reply bound: after the reply bytes are produced, nothing is written to the
+	// connection when they exceed the limit
+	var pr ssa.Value
+	for _, ci := range deepCallsNamed(root, "(*ssh/agent.server).processRequestBytes") {
+		if v := callValue(ci); v != nil {
+			pr = v
+		}
+	}
+	// the places that hold the reply: the call result, and the parameter of every
+	// same-package helper it is handed to (a "write reply" helper)
+	type holder struct {
+		g    *ssa.Function
+		v    ssa.Value
+		from ssa.Instruction // nil: from the entry of g
+	}
+	var holders []holder
+	if pr != nil {
+		holders = append(holders, holder{pr.(ssa.Instruction).Parent(), pr, pr.(ssa.Instruction)})
+	}
+	// by role as well: a byte slice whose len() is compared with the size limit
+	deepInstrs(root, func(in ssa.Instruction) {
+		bo, ok := in.(*ssa.BinOp)
+		if !ok {
+			return
+		}
+		for _, side := range [][2]ssa.Value{{bo.X, bo.Y}, {bo.Y, bo.X}} {
+			k, isK := constInt(side[1])
+			call, isCall := stripConv(side[0]).(*ssa.Call)
+			if !isK || k != maxB || !isCall || calleeName(&call.Call) != "builtin:len" {
+				continue
+			}
+			v := call.Call.Args[0]
+			if v == pr {
+				continue
+			}
+			switch x := v.(type) {
+			case *ssa.Parameter:
+				holders = append(holders, holder{x.Parent(), v, nil})
+			case ssa.Instruction:
+				holders = append(holders, holder{x.Parent(), v, x})
+			}
+		}
+	})
+	pr = nil
+	if len(holders) > 0 {
+		pr = holders[0].v
+	}
+	for i := 0; i < len(holders) && i < 8; i++ {
+		refs := holders[i].v.Referrers()
+		if refs == nil {
+			continue
+		}
+		for _, r := range *refs {
+			call, ok := r.(*ssa.Call)
+			if !ok {
+				continue
+			}
+			h := samePkgCallee(root, &call.Call)
+			if h == nil {
+				continue
+			}
+			for k, a := range call.Call.Args {
+				if a == holders[i].v && k < len(h.Params) {
+					holders = append(holders, holder{h, h.Params[k], nil})
+				}
+			}
+		}
+	}
+	isWrite := func(n string) bool { return strings.HasPrefix(n, "invoke:") && strings.HasSuffix(n, ".Write") }
+	nWrites := 0
+	okR := pr != nil
+	for _, n := range []int64{1, maxB, maxB + 1} {
+		got := false
+		for _, h := range holders {
+			e := newEnv()
+			e.bindLen(h.g, h.v, n)
+			var after map[*ssa.BasicBlock]bool
+			if h.from != nil {
+				after = reachAfter(h.from, e.cuts(h.g))
+			} else {
+				after = reach([]*ssa.BasicBlock{h.g.Blocks[0]}, e.cuts(h.g))
+			}
+			for _, w := range calls(h.g, isWrite) {
+				nWrites++
+				if after[w.Block()] {
+					got = true
+				}
+			}
+		}
+		if got != (n <= maxB) {
+			okR = false
+		}
+	}
+	c.check(okR && nWrites > 0, "C43.framing", "ServeAgent reply length", root, "over-long replies are not written", "replies above the size limit are written")
 }
